@@ -474,3 +474,8 @@ def _gen_regen(ctx):
     m = importlib.util.module_from_spec(sp); sp.loader.exec_module(m)
     m.regen(ctx)
 
+
+
+# Fermat / freshman / Frobenius = p^k-th power / Euler for Z_p and the towers over it (coq/NumTh): discharges the
+# frobenius_is_pow_partial premises for towers over FpOps p
+EXTRA_PROP_FILES = ['NumTh']
